@@ -5,7 +5,10 @@ use std::io::BufRead;
 use std::sync::OnceLock;
 
 use ff::PrimeField;
-use midnight_curves::Bls12;
+use group::Group;
+use midnight_curves::{Bls12, G1Projective};
+use midnight_proofs::poly::commitment::Guard;
+use midnight_proofs::transcript::{CircuitTranscript, Transcript};
 use midnight_proofs::{
     plonk::{ConstraintSystem, ProvingKey, VerifyingKey},
     poly::kzg::{
@@ -118,7 +121,7 @@ pub fn run_case(b: &Bundle, c: &Case) -> Outcome {
     let identity_dup = !matches!(c.m, crate::types::Mut::Identity) && input == b.base(&c.obj);
     match &c.obj {
         Obj::Vk { fix, fmt } => run_vk(b, *fix, *fmt, &input, diff, &mut out),
-        Obj::PlonkVk { fix, fmt } => run_plonk_vk(*fix, *fmt, &input, diff, &mut out),
+        Obj::PlonkVk { fix, fmt } => run_plonk_vk(b, *fix, *fmt, &input, diff, &mut out),
         Obj::Params { fmt } => run_params(b, *fmt, &input, diff, &mut out),
         Obj::Arch { .. } => run_arch(&input, diff, &mut out),
         Obj::Proof { fix, poseidon, vk_fix } => run_proof(b, *fix, *poseidon, *vk_fix, &input, diff, &mut out),
@@ -228,7 +231,7 @@ fn run_vk(b: &Bundle, fix: Fix, fmt: Fmt, input: &[u8], diff: usize, out: &mut O
     }
 }
 
-fn run_plonk_vk(fix: Fix, fmt: Fmt, input: &[u8], diff: usize, out: &mut Outcome) {
+fn run_plonk_vk(b: &Bundle, fix: Fix, fmt: Fmt, input: &[u8], diff: usize, out: &mut Outcome) {
     let n = input.len();
     let arch = fix.used_chips();
     let a = guarded("plonk::VerifyingKey::read", n, || {
@@ -273,6 +276,37 @@ fn run_plonk_vk(fix: Fix, fmt: Fmt, input: &[u8], diff: usize, out: &mut Outcome
     }
     if let Err(e) = check_vk_points(&vk, fmt) {
         fail(out, format!("invalid-point-accepted:plonk::VerifyingKey::read:{fmt:?}"), e);
+    }
+    // use the decoded key through the PLONK-level entry points (no MidnightVK wrapper in front):
+    // the fixture proof with the honest public inputs, and with an empty public-input column
+    // (what a key declaring a tiny domain can still be asked to verify)
+    let vp = valid_params(b);
+    let inst = instance(b, fix);
+    let pr = proof(b, fix, false);
+    let committed = [G1Projective::identity()];
+    let empty: Vec<F> = vec![];
+    for (entry, pi) in [("plonk::prepare(decoded-vk)", &inst), ("plonk::prepare(decoded-vk,empty-instance)", &empty)] {
+        let r = guarded(entry, n, || {
+            let mut t = CircuitTranscript::<Blake>::init_from_bytes(pr);
+            let g = midnight_proofs::plonk::prepare::<F, KZGCommitmentScheme<Bls12>, CircuitTranscript<Blake>>(&vk, &[&committed], &[&[&pi[..]]], &mut t).map_err(|e| format!("{e:?}"))?;
+            g.verify(vp).map_err(|e| format!("{e:?}"))
+        });
+        match r {
+            Err(p) => fail(out, psig(entry, &p), format!("{entry} panicked with a key that decoded successfully: {p}; key bytes {}", hex_prefix(input, 48))),
+            Ok(res) => {
+                if std::env::var("VP_C16_DEBUG").is_ok() {
+                    eprintln!("{entry}: {res:?}");
+                }
+                out.classes.push(format!(
+                "{}:{}",
+                if pi.is_empty() { "prepare-empty" } else { "prepare" },
+                match &res {
+                    Ok(()) => "ok".to_string(),
+                    Err(e) => format!("err:{}", e.split(|c: char| !c.is_alphanumeric()).next().unwrap_or("")),
+                }
+            ))
+            }
+        }
     }
 }
 
